@@ -1,6 +1,7 @@
 mod util;
 mod c13;
 mod c14;
+mod c20;
 
 use util::Opts;
 
@@ -34,6 +35,7 @@ fn main() {
     let rep = match prop.as_str() {
         "C13" => c13::run(&o),
         "C14" => c14::run(&o),
+        "C20" => c20::run(&o),
         _ => {
             eprintln!("unknown property {prop}");
             std::process::exit(3);
